@@ -391,7 +391,7 @@ def _beam_lagrange(seq):
         if "connection" in extra:
             sm.add_connection_fixed(nm)
         if "support" in extra:
-            sm.add_dirichlet(n2, [0.0], ["y"])
+            sm.add_dirichlet(n2, [0.0, 0.0, 0.0], ["x", "y", "rz"])          # clamp: well posed with and without the connection
     sm = Simulations.Beam(mesh, st)
     final = set()
     for step in seq:
@@ -399,7 +399,7 @@ def _beam_lagrange(seq):
             base(sm, {"connection"})
             final = {"connection"}
         elif step == "add_dirichlet":
-            sm.add_dirichlet(n2, [0.0], ["y"])
+            sm.add_dirichlet(n2, [0.0, 0.0, 0.0], ["x", "y", "rz"])
             final = final | {"support"}
         elif step == "bc_init_readd_without_connection":
             sm.Bc_Init()
@@ -413,6 +413,8 @@ def _beam_lagrange(seq):
     fr = Simulations.Beam(mesh, st)
     base(fr, final)
     uf = np.asarray(fr.Solve())
+    if not (np.isfinite(u).all() and np.isfinite(uf).all()):
+        raise Unsupported("ill-posed comparison problem")
     return float(np.abs(u - uf).max() / np.abs(uf).max())
 
 
